@@ -122,11 +122,6 @@ func Decode(reader io.Reader, values ...interface{}) (err error) {
 				return errors.WithMessage(err, "reading length of binary data")
 			}
 
-			// Nothing to be decoded when length is zero.
-			if length == 0 {
-				break
-			}
-
 			var data ByteSlice = make([]byte, length)
 			err = data.Decode(reader)
 			if err != nil {
